@@ -11,21 +11,36 @@ impl DeclarationElsewhere {
     ) -> Result<&'a ASN1Type, GrammarError> {
         #[cfg(feature = "verif-hooks")]
         let _verif_depth = crate::verif_hooks::enter();
-        match tlds.get(&self.identifier).ok_or_else(|| GrammarError::new(
-            &format!("Failed to resolve reference of ElsewhereDefined: {}", self.identifier),
-            super::GrammarErrorType::LinkerError
-        ))? {
-            ToplevelDefinition::Type(ToplevelTypeDefinition { ty: ASN1Type::ElsewhereDeclaredType(e), .. }) => e.root(tlds),
-            ToplevelDefinition::Type(ToplevelTypeDefinition { ty, .. }) => Ok(ty),
-            ToplevelDefinition::Class(_) => Err(GrammarError::todo()),
-            ToplevelDefinition::Object(_) => Err(GrammarError::todo()),
-            _ => Err(GrammarError::new(
-                &format!(
-                    "Unexpectedly found a value definition resolving reference of ElsewhereDefined: {}",
-                    self.identifier
-                ),
+        // follows the chain of type references; a chain that comes back to a name it has
+        // already visited is a circular alias and has no root
+        let mut visited = vec![self.identifier.as_str()];
+        let mut current = self;
+        loop {
+            match tlds.get(&current.identifier).ok_or_else(|| GrammarError::new(
+                &format!("Failed to resolve reference of ElsewhereDefined: {}", current.identifier),
                 super::GrammarErrorType::LinkerError
-            ))
+            ))? {
+                ToplevelDefinition::Type(ToplevelTypeDefinition { ty: ASN1Type::ElsewhereDeclaredType(e), .. }) => {
+                    if visited.contains(&e.identifier.as_str()) {
+                        return Err(GrammarError::new(
+                            &format!("Circular type reference through '{}'", e.identifier),
+                            super::GrammarErrorType::LinkerError
+                        ));
+                    }
+                    visited.push(e.identifier.as_str());
+                    current = e;
+                }
+                ToplevelDefinition::Type(ToplevelTypeDefinition { ty, .. }) => return Ok(ty),
+                ToplevelDefinition::Class(_) => return Err(GrammarError::todo()),
+                ToplevelDefinition::Object(_) => return Err(GrammarError::todo()),
+                _ => return Err(GrammarError::new(
+                    &format!(
+                        "Unexpectedly found a value definition resolving reference of ElsewhereDefined: {}",
+                        current.identifier
+                    ),
+                    super::GrammarErrorType::LinkerError
+                ))
+            }
         }
     }
 }
